@@ -279,6 +279,10 @@ func (s *XModel) GetWithTxStatus(bucket string, key []byte) (*kledger.VersionedD
 func (s *XModel) Select(bucket string, startKey []byte, endKey []byte) (kledger.XMIterator, error) {
 	rawStartKey := makeRawKey(bucket, startKey)
 	rawEndKey := makeRawKey(bucket, endKey)
+	if endKey == nil {
+		// nil means up to the last key of the bucket, as in the sandbox's in-memory model
+		rawEndKey = append([]byte(bucket), BucketSeperator[0]+1)
+	}
 	iter := &XMIterator{
 		bucket: bucket,
 		iter:   s.extUtxoTable.NewIteratorWithRange(rawStartKey, rawEndKey),
